@@ -38,17 +38,20 @@ CONSTANTS
     PertKinds,   \* subset of {"none", "extent", "scale", "shift0"}
     NumSyss,     \* subset of {"Lin", "Log", "Square", "LinRel", "LinTanh"}
     RrefFlags,   \* set of <<rref_equil, rref_preserv>>
-    Options,     \* set of <<backend, new_eq_params, order, species form>>: how the residual object is
+    Options,     \* set of <<backend, new_eq_params, order, species form, written form>>: how the object is
                  \* built and called - backend "sympy" (exact parameters) / "numpy" / "math" (floats);
                  \* constants passed in params (TRUE) or taken from the system (FALSE); species in pool
-                 \* order "asc" or reversed "rev"; species given by "comp"osition or by "formula"
+                 \* order "asc" or reversed "rev"; species given by "comp"osition or by "formula";
+                 \* the equilibria written with their "net" coefficients, or with a species on BOTH
+                 \* sides ("self": a participant, "other": a catalyst that does not take part, "inact":
+                 \* listed as inactive reactant and inactive product) - the law only sees the net
     MaxEvals     \* number of evaluations of one residual object (1 = no history)
 
 VARIABLES phase, sys, ceq, K, xi, cinit, pert, c, cfg, expd, hist
 vars == <<phase, sys, ceq, K, xi, cinit, pert, c, cfg, expd, hist>>
 
 NoPert == [kind |-> "unset", i |-> 0, a |-> QZero]
-NoCfg == [ns |-> "", re |-> FALSE, rp |-> FALSE, opt |-> <<"", TRUE, "", "">>]
+NoCfg == [ns |-> "", re |-> FALSE, rp |-> FALSE, opt |-> <<"", TRUE, "", "", "">>]
 NS == Len(sys.ss)
 NR == Len(sys.rs)
 
@@ -213,6 +216,21 @@ NeverOverdetermined ==
         /\ NEq(sys, TRUE) <= NEq(sys, FALSE)
         /\ \A i \in 1..NR, k \in 1..Len(sys.B) : Dot(sys.nu[i], sys.B[k]) = 0
 
+(* How an equilibrium is WRITTEN does not change what it says: a species that stands on both sides  *)
+(* contributes only its net coefficient.  Written(kind) names reaction i, species j (position in the *)
+(* system) and the amount m added to both sides; any such triple is legal.                           *)
+FirstIn(S) == CHOOSE j \in S : \A k \in S : j <= k
+LastIn(S) == CHOOSE j \in S : \A k \in S : j >= k
+PartOf(i) == {j \in 1..NS : sys.nu[i][j] # 0}
+Written(kind) ==
+    CASE kind = "self"  -> <<1, FirstIn(PartOf(1)), 1>>
+      [] kind = "inact" -> <<1, LastIn(PartOf(1)), 1>>
+      [] kind = "other" -> LET out == (1..NS) \ PartOf(NR)
+                           IN  <<NR, IF out = {} THEN LastIn(PartOf(NR)) ELSE FirstIn(out), 2>>
+      [] OTHER          -> <<0, 0, 0>>
+WrittenLegal(kind, w) ==
+    IF kind = "net" THEN w = <<0, 0, 0>> ELSE w[1] \in 1..NR /\ w[2] \in 1..NS /\ w[3] >= 1
+
 ------------------------------------------------------------------------------
 (* case export *)
 PairSeq(S) == SetToSortSeq(S, LAMBDA p, q : p[1] < q[1])
@@ -229,6 +247,7 @@ CaseIn ==
      xi      |-> xi,
      pert    |-> pert,
      hist    |-> hist,
+     written |-> Written(cfg.opt[5]),
      ns      |-> cfg.ns, re |-> cfg.re, rp |-> cfg.rp, opt |-> cfg.opt]
 
 CaseExp ==
@@ -246,7 +265,7 @@ CaseExp ==
 
 CaseRec == [in |-> CaseIn, exp |-> CaseExp,
             cls |-> cfg.ns \o (IF cfg.re THEN "-re" ELSE "") \o (IF cfg.rp THEN "-rp" ELSE "") \o "-" \o pert.kind
-                    \o "-" \o cfg.opt[1] \o (IF cfg.opt[2] THEN "" ELSE "-ownK") \o "-" \o cfg.opt[3] \o "-" \o cfg.opt[4]
+                    \o "-" \o cfg.opt[1] \o (IF cfg.opt[2] THEN "" ELSE "-ownK") \o "-" \o cfg.opt[3] \o "-" \o cfg.opt[4] \o "-" \o cfg.opt[5]
                     \o (IF hist = <<>> THEN "" ELSE "-again")]
 Emit == Done => PrintT(<<"CASE", ToJson(CaseRec)>>)
 =============================================================================
